@@ -45,6 +45,9 @@ checks = {
  "C15": ("model_checking", "xstate", E2,
          "Explicit-state BFS per band over AddChannel (4 argument kinds) / Disable / Enable (6 index kinds incl. -1 and n) from the constructor state, depth 4 quick / 6 thorough, dedup on the snapshot of both channel slices; a Go slice model is stepped in lock-step on every transition and all observers (index sets, accessors with invalid indices, lookups, GetCFList for 7 versions) are compared in every distinct state; every frequency/DR/CFList the band produces is pushed through the MAC encoders and decoded back.",
          "Depth bound (4/6 operations) plus a directed 7-addition history; canonical-state soundness argued in DESIGN.md A.2. Operation sequences of length ~30 named in the quantifier are beyond the bound: the state space closes under Disable/Enable at every explored add-history, so longer sequences revisit explored states unless they add more channels."),
+ "C14": ("model_checking", "xstate", E2,
+         "Network channel-plan states of the 11 dynamic bands are explored by explicit-state BFS (AddChannel x2 kinds up to 4 additions, Toggle of every channel, until the state set closes); in every state every device subset (incl. one index beyond the plan) is planned by the band, applied by an independent device-side LinkADRReq model and by the library's own apply function; the full 16-channel plan with all 2^16 device subsets; US915/AU915/CN470 over products of per-block patterns for both the network and the device set, network sets produced by real Disable/Enable calls.",
+         "72/96-channel plans use pattern products (quick 4 / thorough 7 patterns per 16-channel block), not all 2^72 subsets; the device model mc/spec/region.go is written from the LoRaWAN/RP002 ChMaskCntl tables."),
 }
 
 def load_extra():
